@@ -364,3 +364,75 @@ NormalizeCurveSpec.sorted = _nc_sorted
 @loop(B + "::NormalizeCurve.execute", "for", 0)
 class NormalizeCurveLoop(_CurveLoop):
     pass
+
+
+@spec("NormalizeCurveZScore")
+class NormalizeCurveZScoreSpec(CommandSpec):
+    uses_stats = True
+    Z, NORMAL = "ZScoreValues", "NormalValues"
+
+    def rawseq(self, x):
+        from pyvc.values import SeqV, Sym
+        N = "InFieldName"
+        mean, std = x.stat(N, "vmean"), x.stat(N, "vstd")
+        zs = x.numseq(self.Z)
+        return SeqV(zs.n, lambda k: Sym("num", mean + x.w(self.Z, k) * std, False))
+
+    def sorted(self, x):
+        return x.sorted(self.rawseq(x), self.NORMAL)
+
+    def requires(self, x):
+        N = "InFieldName"
+        P, Q, m, dist = self.sorted(x)
+        cv, facts = x.curve("ncz", P, Q, m, lambda c: x.view(N, c))
+        for f in facts:
+            x.st0.assume_all_cells(f)
+        # admissible z-score vectors: non-empty, and distinct control points after scaling (sigma > 0, distinct z)
+        return [z3.Or(x.n(self.Z) >= 1, x.n(self.Z) != x.n(self.NORMAL)), dist, x.stat(N, "vstd") > 0]
+
+    def raises(self, x):
+        return [("MixedArrayLengths", x.n(self.Z) != x.n(self.NORMAL))]
+
+    def result(self, x):
+        N = "InFieldName"
+        P, Q, m, dist = self.sorted(x)
+        cv, facts = x.curve("ncz", P, Q, m, lambda c: x.view(N, c))
+        return dict(shape=x.shape(N), dtype=FLT, miss=lambda c: x.miss(N, c), value=cv)
+
+
+@loop(B + "::NormalizeCurveZScore.execute", "for", 0)
+class NormalizeCurveZScoreLoop(_CurveLoop):
+    SPEC = "NormalizeCurveZScore"
+    KEY = "ncz"
+
+
+@spec("NormalizeMeanToMid")
+class NormalizeMeanToMidSpec(CommandSpec):
+    """Mask, shape, kind, dtype and frame clauses are proved; the value clause (which five control points are
+    chosen) is not specified here - the result is whatever NormalizeCurve's contract yields for the control
+    points the code computes (bounded check covers the values)."""
+    uses_stats = True
+    NORMAL = "NormalValues"
+
+    def requires(self, x):
+        # documented use: five normal values, one per control point (min, low mean, mean, high mean, max)
+        return [x.n(self.NORMAL) == 5]
+
+    def raises(self, x):
+        return [("MixedArrayLengths", None), ("DuplicateRawValues", None)]
+
+    def result(self, x):
+        N = "InFieldName"
+        return dict(shape=x.shape(N), dtype=FLT, miss=lambda c: x.miss(N, c), value=None)
+
+
+@spec("PrintVars")
+class PrintVarsSpec(CommandSpec):
+    def result(self, x):
+        return None
+
+
+@loop(B + "::PrintVars.execute", "for", 0)
+class PrintVarsLoop(LoopContract):
+    def inv(self, I):
+        I.temps("command")
